@@ -169,7 +169,7 @@ def run(ctx):
         if key in by:
             ctx.add_sample({"request": describe(by[key]["q"]), "spec": {k: by[key]["x"][k] for k in ("k", "amt", "fee", "ver", "shape", "vb")}})
     ctx.extra["replay"] = {k: v for k, v in st.items() if not k.startswith("us:")}
-    ctx.extra["cpu_seconds_by_phase"] = {k[3:]: round(v / 1e6, 1) for k, v in st.items() if k.startswith("us:")}
+    ctx.extra["thread_seconds_by_phase"] = {k[3:]: round(v / 1e6, 1) for k, v in st.items() if k.startswith("us:")}
     lib.mc_evidence(
         ctx,
         rule="R: every request of MC_Builder's exhaustive domain (slices: shapes with <= 2 pools x 3 regimes x balance offsets; "
